@@ -472,7 +472,8 @@ static void case_c12(rng_t *r, ctx_t *c) {
     else if (utccls == 2) utc = rng_range(r, -1000, 1000);
     int drift_ppm = (int) rng_range(r, -500, 500);
     int irregular = rng_chance(r, 1, 2);
-    int equal_times = rng_chance(r, 1, 5);
+    /* stalled clock: equal times at random places (1), also over the last segment (2) or the first one (3) */
+    int equal_times = rng_chance(r, 1, 4) ? 1 + (int) rng_below(r, 3) : 0;
     for (int64_t k = 0; k < n; ++k) {
         op_t *o = ol_add(&l[1], OP_UTC);
         o->id = 9; o->sid = sid; o->utc = utc;
@@ -482,6 +483,7 @@ static void case_c12(rng_t *r, ctx_t *c) {
         int64_t dti = (int64_t) dt;
         if (dti < ds) dti = ds;                 /* at least one tick per sample */
         if (equal_times && rng_chance(r, 1, 6)) dti = 0;
+        if ((equal_times == 2 && k == n - 2) || (equal_times == 3 && k == 0)) dti = 0;
         sid += ds; utc += dti;
     }
     op_t *ls[2] = {l[0].ops, l[1].ops}; size_t cn[2] = {l[0].n, l[1].n};
